@@ -37,7 +37,7 @@ CLAIMED = {
   "C06": ("exploration", "E-SEQ",
           "bounded-exhaustive delivery sequences through the real Binance spot/futures L2 transformers against a venue-rule monitor",
           "For simulated venue evolutions (5-6 atomic changes, every composition into updates, every snapshot point, two instruments on one connection, consecutive and stride-2 ids): every delivery sequence of length <=6 (quick) / <=7 (thorough) of the resulting updates (drop, duplicate, swap, replay, early/late start) goes through the real transformers obtained from ExchangeTransformer::init (venue JSON through the real deserialisers), every Ok event is applied to a real OrderBook, the connection stops at the first terminal error; the admitted updates must form the published chain, the local book must equal the venue book at its reported sequence, every break must be a terminal error, in-order delivery after older messages must never error. Hardened: level-less updates, ids across 2^32, a loopback layer running the real ExchangeWsStream::init (spot and futures) and init_market_stream re-initialisation against a scripted venue (cfg hook).",
-          "Three fixed venue scripts; the buffering/ordering inside ExchangeWsStream::init (needs a live socket) is not exercised.",
+          "Fixed venue scripts; the loopback layers need local TCP sockets (a loopback layer that cannot run is exit 2, never a verdict).",
           "DESIGN.md §3 C06"),
   "C07": ("exploration", "E-ENV",
           "exhaustive schedule enumeration of the real ExecutionManager::run under virtual time (manual polling, scripted client)",
@@ -111,6 +111,30 @@ CLAIMED = {
           "DESIGN.md §3 C14"),
 }
 
+# second hardening round + later seeds: one more sentence per level text (details: DESIGN.md 8.6)
+ROUND2 = {
+  "C01": "Round 2: nanosecond instants, 1e-12 remainders, every error class of failed opens / cancels, a cid shared by two instruments, market / IOC orders, and a scripted long-input layer (1100 / 4200 concurrent orders; batch recorders and full snapshots of every size to 130 and around powers of two and ten) through Orders, EngineState and Engine::process.",
+  "C02": "Round 2: dust quantities (1e-24), the engine layer with trading enabled and a strategy proposing orders on a fill (closed record next to algo output / an unrecoverable algo error), 1100 / 4200 fill histories.",
+  "C03": "Round 2: opens re-using a tracked cid, commands next to a refuse-all risk manager, position-exit ticks, cancels without exchange order id, funded roots (balances known), batches of 24 opens.",
+  "C04": "Round 2: near-miss names for every menu name, all 42 exchange ids as foreign ids on every inbound path, a 310-instrument menu.",
+  "C05": "Round 2: prices differing only beyond f64 precision, amount 1e-28, one update of n levels on a book of n levels (n to 1100 / 10001), 2600 / 21000 deliveries through the real manager (one by one and all queued), big books on both sides.",
+  "C06": "Round 2: two instruments on one connection through the real ExchangeWsStream::init; a re-initialisation whose fresh snapshot drops a level of the stale book; a second sweep in which the first b messages of every delivery go through the real process_buffered_events as one batch.",
+  "C07": "Round 2: per-exchange timeouts through the builder, timeouts of 2 ms and 36 h, connectivity-class client errors, an unlinked exchange before the linked ones, a client rejection naming an unconfigured asset (genuine defect found and fixed).",
+  "C08": "Round 2: every request carrying the same client order id, balances 1e-14 short of exactly enough, trade queries whose since lies inside the history, upper-case exchange asset names, a third tracked exchange re-using a market name; clients that abandon their open-order call.",
+  "C09": "Round 2: instants a nanosecond past a whole second and on the next day with an earlier time of day, link-health flags in the BFS state, full snapshots naming two items of one kind, an instrument listed without orders, liquidation / candle events, the empty top of book.",
+  "C10": "Round 2: a report stamped between whole seconds, 320 / 1000-event cyclic histories through both runners (every shorter length too; one world starting at sequence 2^32-40), the real SystemBuilder path in both feed modes.",
+  "C11": "Round 2: a second extended menu with a future / option settled in a third asset and a unit-only asset on a future.",
+  "C12": "Round 2: the real ExecutionManager::init account stream over a scripted client, Streams::builder() / builder_multi() (two subscribe calls for one exchange), waits above 2^32 ms, two DynamicStreams::init arms (Binance spot / futures trades) against a loopback venue through the cfg hook.",
+  "C13": "Round 2: every payload also through the real ExchangeStream + WebSocketParser and through process_buffered_events; subscribe requests judged against a model of each venue's request format; one-sided L1; liquidation time and book engine time; BitMEX foreignNotional != size.",
+  "C14": "Round 2: four and five exchanges, the L2 update market kind.",
+  "C15": "Round 2: events that are neither fills nor market data must leave every estimate alone; moves of 1e-8; market data received an hour late / a second early.",
+  "C16": "Round 2: the printed profit-factor row, returns beyond -100 % and of +-1e-10, a 1100 / 4200 position walk.",
+  "C17": "Round 2: a value with 27 fractional digits, 2100 / 8400 value sequences judged against exact big-integer running sums, outliers first arriving after a long warm-up.",
+  "C18": "Round 2: declines of 1e-9 of the peak with 21 decimals, mean duration expected from time_end - time_start, points 40 days apart, history-dependent zig-zag curves reporting 6 / 8 drawdowns.",
+  "C19": "Round 2: 1100 / 4200 orders on one instrument, worlds of 1..64 / 200 instruments, a three-exchange world, commands through a real System handle, the library's DefaultStrategy, all streams Reconnecting, a refuse-all risk manager, cids shared between instruments.",
+  "C20": "Round 2: datasets with events of a second exchange without execution, market entries compared with exchange time / exchange / side / amount, two instrument layouts.",
+}
+
 NOT_YET = {}
 
 def main():
@@ -120,6 +144,8 @@ def main():
         pid = p['id']
         if pid in CLAIMED:
             level, engine, tech, text, note, ref = CLAIMED[pid]
+            if pid in ROUND2:
+                text = text.rstrip() + " " + ROUND2[pid]
             checks.append({
                 "property_id": pid,
                 "quick_cmd": f"./check {pid} --tier quick",
@@ -139,7 +165,7 @@ def main():
         "setup_cmd": "cd /verif/harness && CARGO_NET_OFFLINE=true cargo build --release --offline",
         "hooks": {
             "guard": "barter_rs_barter_rs_verif",
-            "enable": "harness/.cargo/config.toml sets rustflags = [\"--cfg\", \"barter_rs_barter_rs_verif\"], so every build of the harness crate (path dependencies on /repo's crates => rebuilt from /repo's working tree) compiles barter-data with the one hook on; only C06's stream-initialisation layer uses it (Binance WebSocket URL override read from env BARTER_VERIF_BINANCE_WS_URL). Every other seam is a public type parameter / constructor of barter-rs.",
+            "enable": "harness/.cargo/config.toml sets rustflags = [\"--cfg\", \"barter_rs_barter_rs_verif\"], so every build of the harness crate (path dependencies on /repo's crates => rebuilt from /repo's working tree) compiles barter-data with the one hook on; only C06's stream-initialisation layers and C12's DynamicStreams layer use it (Binance WebSocket URL override read from env BARTER_VERIF_BINANCE_WS_URL). Every other seam is a public type parameter / constructor of barter-rs.",
             "baseline_off_cmd": BASELINE,
             "source_commits": [HOOK_COMMIT],
             "add_only": True,
